@@ -31,7 +31,7 @@ RECURSIVE Str(_)
 Str(sq) == IF sq = <<>> THEN "" ELSE Head(sq) \o Str(Tail(sq))
 PrintPaths ==
   Quiescent =>
-     PrintT(<<"BEHAVIOUR", ToJson([scen |-> [src |-> Str(scen.src), wts |-> Str(scen.wts)],
+     PrintT(<<"BEHAVIOUR", ToJson([scen |-> [src |-> Str(scen.src), wts |-> Str(scen.wts), own |-> IF scen.own THEN "1" ELSE "0"],
                                    final |-> ExpectedFinal,
                                    evs |-> [i \in 1..Len(hist) |->
                                              [p |-> hist[i].p, a |-> hist[i].a, o |-> hist[i].o, old |-> hist[i].old,
